@@ -316,7 +316,11 @@ def install(eng):
             "self.task_states[result] == LocalStatus.SUBMITTED", "result not in done_tasks or True",
             OTHERS % "result"],
         entry_assume=["forall(lambda k: implies(k in done_tasks, k in issued), Tid)"],
-        serves=["C14", "C13"])
+        # C11/C07: the worker is started with exactly the dependency ids the client sent (none dropped, none added) and
+        # under the id that is returned; try_handle_task's guarantees are about ITS deps argument
+        spawn_ensures={"gwf.backends.local:Scheduler.try_handle_task": [
+            "forall(lambda d: (d in spawn_deps) == (d in old(deps)), Tid)"]},
+        serves=["C14", "C13", "C11", "C07"])
     eng.contract(
         "gwf.backends.local:Scheduler.cancel_task", self_type=Sch, is_async=True, params={"self": Sch, "tid": Tid},
         requires=SINV, modifies=["self.task_states", "ghost:cancel_requested"],
